@@ -45,9 +45,22 @@ Definition pop_ready (tp : list cell) (i : nat) : bool := is_full (tget tp i).
 Definition push_ready (qcap : nat) (tp : list cell) (i : nat) : bool :=
   (i <? qcap) || is_consumed (tget tp (i - qcap)).
 
-(* first ticket of the next round of the ring: C01 proves (bq_round) that the source expression
-   (index + mask + 1) & ~mask equals this for capacity 2^k *)
-Definition round_end (qcap i : nat) : nat := (i / qcap + 1) * qcap.
+(* pop_n / push_n(callback, reverse_callback, num) split the claimed tickets [index, index+num) at the end of the
+   current round of the ring and invoke deal_n_continuously - hence the user callback - ONCE PER CONTIGUOUS
+   SEGMENT.  The split is computed with the regenerated expressions of bounded_queue.hpp (slot mask = capacity-1):
+   plan = (end of the first segment, second segment (start, length) if the claim wraps). *)
+Definition seg_plan (r : bool) (qcap idx need : nat) : nat * option (nat * nat) :=
+  let zi := Z.of_nat idx in let zn_ := Z.of_nat need in let mask := (Z.of_nat qcap - 1)%Z in
+  if r then
+    let rb := pushn_round zi mask in
+    if pushn_fits zi zn_ rb then (idx + Z.to_nat (pushn_whole zn_), None)
+    else (idx + Z.to_nat (pushn_first zi rb), Some (Z.to_nat (pushn_start2 rb), Z.to_nat (pushn_second zi zn_ rb)))
+  else
+    let rb := popn_round zi mask in
+    if popn_fits zi zn_ rb then (idx + Z.to_nat (popn_whole zn_), None)
+    else (idx + Z.to_nat (popn_first zi rb), Some (Z.to_nat (popn_start2 rb), Z.to_nat (popn_second zi zn_ rb))).
+(* try_pop_n (the destructor) *)
+Definition round_end (qcap i : nat) : nat := Z.to_nat (trypopn_round (Z.of_nat i) (Z.of_nat qcap - 1)).
 
 (* ------------------------------------------------------------------ Gen wrappers (nat <-> Z) *)
 Definition zn (n : nat) : Z := Z.of_nat n.
@@ -99,10 +112,14 @@ Inductive pc :=
 Record thread := {
   prog : list op; opi : nat; tpc : pc;
   held : list nat;      (* pages / objects the caller owns *)
-  buf : list nat;       (* pages inside the running call (out array of allocate, rest of the in array of deallocate) *)
+  buf : list nat;       (* the caller's page array of the running call: deallocate = the pages handed in (never
+                           shrinks), allocate = the pages written so far *)
+  cur : nat;            (* the `pages` cursor into that array, advanced by the callbacks *)
   lo : nat; hi : nat;   (* own tickets still to be served: [lo, hi) *)
-  se : nat; pos : nat;  (* current deal_n_continuously segment is [lo at its start, se); pos = cell being awaited *)
-  ex : nat;             (* allocate: pages beyond the capacity, still to come from upstream *)
+  ss : nat; se : nat;   (* current deal_n_continuously segment [ss, se): one callback invocation *)
+  pos : nat;            (* cell being awaited *)
+  rest : option (nat * nat);   (* second segment (start, length) when the claim wraps the ring *)
+  ex : nat;             (* allocate: num (size of the out array) *)
   results : list res }.
 
 Record st := {
@@ -117,8 +134,8 @@ Record st := {
   threads : list thread }.
 
 Definition mk_thread (p : list op) : thread :=
-  {| prog := p; opi := 0; tpc := Idle; held := []; buf := []; lo := 0; hi := 0; se := 0; pos := 0; ex := 0;
-     results := [] |}.
+  {| prog := p; opi := 0; tpc := Idle; held := []; buf := []; cur := 0; lo := 0; hi := 0; ss := 0; se := 0; pos := 0;
+     rest := None; ex := 0; results := [] |}.
 Definition init (qc pc : nat) (progs : list (list op)) : st :=
   {| qcap := qc; pcap := pc; npush := 0; npop := 0; tape := []; fresh := 0; returned := []; recycled := [];
      pushes := []; err := false; threads := map mk_thread progs |}.
@@ -132,23 +149,23 @@ Fixpoint set_nth {A} (n : nat) (x : A) (l : list A) : list A :=
 
 (* ---- thread updates ---- *)
 Definition goto (th : thread) (p : pc) : thread :=
-  {| prog := prog th; opi := opi th; tpc := p; held := held th; buf := buf th; lo := lo th; hi := hi th;
-     se := se th; pos := pos th; ex := ex th; results := results th |}.
+  {| prog := prog th; opi := opi th; tpc := p; held := held th; buf := buf th; cur := cur th; lo := lo th; hi := hi th;
+     ss := ss th; se := se th; pos := pos th; rest := rest th; ex := ex th; results := results th |}.
 Definition with_pos (th : thread) (p : pc) (ps : nat) : thread :=
-  {| prog := prog th; opi := opi th; tpc := p; held := held th; buf := buf th; lo := lo th; hi := hi th;
-     se := se th; pos := ps; ex := ex th; results := results th |}.
+  {| prog := prog th; opi := opi th; tpc := p; held := held th; buf := buf th; cur := cur th; lo := lo th; hi := hi th;
+     ss := ss th; se := se th; pos := ps; rest := rest th; ex := ex th; results := results th |}.
 Definition with_bufs (th : thread) (p : pc) (h b : list nat) : thread :=
-  {| prog := prog th; opi := opi th; tpc := p; held := h; buf := b; lo := lo th; hi := hi th;
-     se := se th; pos := pos th; ex := ex th; results := results th |}.
-Definition with_seg (th : thread) (p : pc) (b : list nat) (l h s ps : nat) : thread :=
-  {| prog := prog th; opi := opi th; tpc := p; held := held th; buf := b; lo := l; hi := h;
-     se := s; pos := ps; ex := ex th; results := results th |}.
+  {| prog := prog th; opi := opi th; tpc := p; held := h; buf := b; cur := cur th; lo := lo th; hi := hi th;
+     ss := ss th; se := se th; pos := pos th; rest := rest th; ex := ex th; results := results th |}.
+Definition with_seg (th : thread) (p : pc) (b : list nat) (c l h sst s ps : nat) (rs : option (nat * nat)) : thread :=
+  {| prog := prog th; opi := opi th; tpc := p; held := held th; buf := b; cur := c; lo := l; hi := h;
+     ss := sst; se := s; pos := ps; rest := rs; ex := ex th; results := results th |}.
 Definition with_ex (th : thread) (p : pc) (e : nat) : thread :=
-  {| prog := prog th; opi := opi th; tpc := p; held := held th; buf := buf th; lo := lo th; hi := hi th;
-     se := se th; pos := pos th; ex := e; results := results th |}.
+  {| prog := prog th; opi := opi th; tpc := p; held := held th; buf := buf th; cur := cur th; lo := lo th; hi := hi th;
+     ss := ss th; se := se th; pos := pos th; rest := rest th; ex := e; results := results th |}.
 Definition finish (th : thread) (h : list nat) (r : res) : thread :=
-  {| prog := prog th; opi := S (opi th); tpc := Idle; held := h; buf := []; lo := lo th; hi := hi th;
-     se := se th; pos := pos th; ex := 0; results := results th ++ [r] |}.
+  {| prog := prog th; opi := S (opi th); tpc := Idle; held := h; buf := []; cur := cur th; lo := lo th; hi := hi th;
+     ss := ss th; se := se th; pos := pos th; rest := rest th; ex := 0; results := results th ++ [r] |}.
 
 (* ---- shared updates ---- *)
 Definition with_threads (s : st) (ths : list thread) : st :=
@@ -184,8 +201,20 @@ Definition upstream_alloc (s : st) (n : nat) : st * list nat :=
 Definition upstream_free (s : st) (l : list nat) : st :=
   with_mem s (tape s) (fresh s) (returned s ++ l) (err s).
 
-(* start of a deal_n_continuously segment for the tickets [l, h) *)
-Definition first_seg_end (s : st) (l h : nat) : nat := Nat.min h (round_end (qcap s) l).
+(* the callbacks of CachedPageAllocator: the pop callback `pages = std::copy(begin, end, pages)` writes the segment
+   at the cursor and advances it, the push callback `copy_n(pages, n, begin); pages += n` reads at the cursor and
+   advances it; j = offset of the cell inside the segment *)
+Definition write_at (i : nat) (l b : list nat) : list nat :=
+  match l with
+  | p :: _ => firstn i b ++ repeat 0 (i - length b) ++ p :: skipn (S i) b
+  | [] => b
+  end.
+Definition src_index (th : thread) (j : nat) : nat := Z.to_nat (free_copy_src (zn (cur th))) + j.
+Definition dst_index (th : thread) (j : nat) : nat := Z.to_nat (alloc_copy_dst (zn (cur th))) + j.
+Definition cursor_after (r : bool) (th : thread) : nat :=
+  if r then cur th + Z.to_nat (free_cursor_adv (free_copy_num (free_n (zn (ss th)) (zn (se th)))))
+  else Z.to_nat (alloc_cursor_next (zn (ss th)) (zn (se th)) (zn (cur th))).
+Definition extra_alloc_num (th : thread) : nat := Z.to_nat (alloc_end 0 (zn (ex th))) - cur th.
 
 Definition cur_op (th : thread) : option op := nth_error (prog th) (opi th).
 Definition alloc_res (th : thread) (pages : list nat) : res :=
@@ -200,8 +229,9 @@ Definition step_thread (s : st) (t : nat) (th : thread) : option st :=
     | None => None
     | Some (OAlloc n) =>
       let need := alloc_need_n n (qcap s) in
-      Some (upd s t (with_ex (with_bufs th (Claim false need) (held th) []) (Claim false need) (n - need)))
-    | Some OPoolPop => Some (upd s t (with_ex (with_bufs th (Claim false pool_pop_n) (held th) []) (Claim false pool_pop_n) 0))
+      Some (upd s t (with_ex (with_bufs th (Claim false need) (held th) []) (Claim false need) n))
+    | Some OPoolPop =>
+      Some (upd s t (with_ex (with_bufs th (Claim false pool_pop_n) (held th) []) (Claim false pool_pop_n) pool_pop_n))
     | Some (OFree n) =>
       let b := firstn n (held th) in
       Some (upd s t (with_bufs th (Claim true (free_need_n (length b) (qcap s))) (skipn n (held th)) b))
@@ -225,8 +255,9 @@ Definition step_thread (s : st) (t : nat) (th : thread) : option st :=
     let idx := ctr s r in
     let s1 := with_ctr s r (idx + need) in
     let h := idx + need in
-    let e := first_seg_end s idx h in
-    Some (upd s1 t (with_seg th (if Nat.eqb need 0 then Extra r else WCheck r) (buf th) idx h e idx))
+    let (e, rs) := seg_plan r (qcap s) idx need in
+    Some (upd s1 t (with_seg th (if Nat.eqb need 0 then Extra r else WCheck r) (buf th) 0 idx h idx
+                             (if Nat.eqb need 0 then idx else e) idx (if Nat.eqb need 0 then None else rs)))
   | WCheck r =>
     let ready := if r then push_ready (qcap s) (tape s) (pos th) else pop_ready (tape s) (pos th) in
     if ready then
@@ -250,25 +281,24 @@ Definition step_thread (s : st) (t : nat) (th : thread) : option st :=
     else                                        (* allocate compensates: push one page fresh from upstream *)
       let (s1, l) := upstream_alloc s 1 in
       Some (upd (put s1 k (fresh s)) t (goto th (WCheck r)))
-  | Act r =>
+  | Act r =>                                 (* one cell of the segment callback + publication of its version *)
     let k := lo th in
+    let j := k - ss th in
     let nxt (b : list nat) :=
-      if Nat.eqb (S k) (se th) then
-        if Nat.eqb (se th) (hi th) then with_seg th (Extra r) b (S k) (hi th) (se th) (pos th)
-        else with_seg th (WCheck r) b (S k) (hi th) (hi th) (S k)
-      else with_seg th (Act r) b (S k) (hi th) (se th) (pos th) in
-    if r then
-      match buf th with
-      | p :: b => Some (upd (put s k p) t (nxt b))
-      | [] => Some (upd (with_mem s (tape s) (fresh s) (returned s) true) t (nxt []))
-      end
-    else
-      let (s1, l) := take s k in Some (upd s1 t (nxt (buf th ++ l)))
+      if Nat.eqb (S k) (se th) then                                        (* the callback returns: cursor advanced *)
+        match rest th with
+        | None => with_seg th (Extra r) b (cursor_after r th) (S k) (hi th) (S k) (se th) (pos th) None
+        | Some (b2, n2) => with_seg th (WCheck r) b (cursor_after r th) (S k) (hi th) b2 (b2 + n2) b2 None
+        end
+      else with_seg th (Act r) b (cur th) (S k) (hi th) (ss th) (se th) (pos th) (rest th) in
+    if r then Some (upd (put s k (nth (src_index th j) (buf th) 0)) t (nxt (buf th)))
+    else let (s1, l) := take s k in Some (upd s1 t (nxt (write_at (dst_index th j) l (buf th))))
   | Extra r =>
-    if r then Some (upd (upstream_free s (buf th)) t (finish th (held th) (free_res th)))
+    if r then Some (upd (upstream_free s (skipn (cur th) (buf th))) t (finish th (held th) (free_res th)))
     else
-      let (s1, l) := upstream_alloc s (ex th) in
-      Some (upd s1 t (finish th (held th ++ buf th ++ l) (alloc_res th (buf th ++ l))))
+      let (s1, l) := upstream_alloc s (extra_alloc_num th) in
+      let out := firstn (cur th) (buf th) ++ l in
+      Some (upd s1 t (finish th (held th ++ out) (alloc_res th out)))
   | SWait r i =>
     if r then
       if push_ready (qcap s) (tape s) i then
